@@ -8,6 +8,7 @@ package c16
 
 import (
 	"fmt"
+	"runtime"
 	"sort"
 	"strconv"
 	"strings"
@@ -369,15 +370,22 @@ func exec(op string) string {
 		results := make([][]rec, len(threads))
 		var wg sync.WaitGroup
 		start := make(chan struct{})
+		var arrived atomic.Int32 // spin barrier: all goroutines begin their first operation together
 		for t, spec := range threads {
 			wg.Add(1)
 			go func(t int, spec string) {
 				defer wg.Done()
 				ops := strings.Split(spec, ";")
 				<-start
+				arrived.Add(1)
+				for spin := 0; arrived.Load() < int32(len(threads)) && spin < 1<<22; spin++ {
+				}
 				for k, o := range ops {
 					if o == "" {
 						continue
+					}
+					if k > 0 && (k+t)%2 == 0 {
+						runtime.Gosched() // vary the interleaving between operations
 					}
 					inv := tick.Add(1)
 					res := doOp(o)
